@@ -189,29 +189,26 @@ def r1_construction(repo, rep):
     rep.violation('R1/construction', cls.qualname, 'no __post_init__', 'TBRMMDesign no longer validates its groups (empty or overlapping groups are accepted)', cls.loc())
     return
   rep.fn(f)
-  g = cfgmod.CFG(f.node)
   s = f.params[0]
-  # (atom, truth value under which the design is rejected)
-  wanted = {'empty treatment': [('%s.treatment_geos' % s, False), ('len(%s.treatment_geos) == 0' % s, True), ('len(%s.treatment_geos) > 0' % s, False)],
-            'empty control': [('%s.control_geos' % s, False), ('len(%s.control_geos) == 0' % s, True), ('len(%s.control_geos) > 0' % s, False)],
-            'overlap': [('%s.treatment_geos & %s.control_geos' % (s, s), True), ('%s.control_geos & %s.treatment_geos' % (s, s), True),
-                        ('%s.treatment_geos.isdisjoint(%s.control_geos)' % (s, s), False), ('%s.control_geos.isdisjoint(%s.treatment_geos)' % (s, s), False)]}
-  rd = dataflow.Reaching(g)
-  exitdom = g.dominators(cfgmod.no_exc).get(g.exit, set())
-  for what, forms in wanted.items():
-    found = None
-    for n_ in g.nodes:
-      if n_.kind != 'test':
-        continue
-      ex = rd.expand(n_, n_.expr)[0]
-      for lab in ('true', 'false'):
-        dnf = pathcond.literals(ex, lab == 'true')
-        if len(dnf) == 1 and len(dnf[0]) == 1 and (norm(dnf[0][0][0]), dnf[0][0][1]) in forms:
-          tb = [m for m, l_ in g.succ[n_] if l_ == lab]
-          if tb and g.exit not in g.reachable(tb[0], cfgmod.no_exc):
-            found = n_
-    rep.check(found is not None and found in exitdom, 'R1/construction', 'TBRMMDesign rejects %s' % what, f.qualname, 'guard: ' + what,
-              'TBRMMDesign.__post_init__ has no dominating guard rejecting %s groups' % what, f.loc())
+  from mmsa import abspaths
+  try:
+    g, rd, paths = abspaths.normal_exit_paths(f.node)
+  except Undecided as ex:
+    rep.undecided('R1/construction', 'TBRMMDesign.__post_init__', str(ex), f.loc())
+    return
+  classify = abspaths.SetFacts({'%s.treatment_geos' % s: 'T', '%s.control_geos' % s: 'C'})
+  ov = 'overlap:C,T'
+  states = [('empty treatment', {'T:empty': True, 'C:empty': False, ov: False}), ('empty treatment', {'T:empty': True, 'C:empty': True, ov: False}),
+            ('empty control', {'T:empty': False, 'C:empty': True, ov: False}), ('empty control', {'T:empty': True, 'C:empty': True, ov: False}),
+            ('overlap', {'T:empty': False, 'C:empty': False, ov: True})]
+  res = abspaths.decide_states(paths, classify, states)
+  for what, o in res.items():
+    if o.status == 'unknown':
+      rep.undecided('R1/construction', 'TBRMMDesign rejects %s' % what,
+                    'a normal-exit path of __post_init__ is compatible with %s groups but carries tests that are not understood (%s)' % (what, '; '.join(o.unknown)[:120]), f.loc())
+      continue
+    rep.check(o.status == 'rejected', 'R1/construction', 'TBRMMDesign rejects %s' % what, f.qualname, 'guard: ' + what,
+              'TBRMMDesign.__post_init__ accepts %s groups: the constructor returns normally on the path where %s' % (what, o.path_text), f.loc())
 
 
 def r2_generators(repo, rep):
